@@ -105,7 +105,7 @@ def check_local(sid, x):
             for I in m.IFACES:
                 if I.providedBy(y) != I.providedBy(x):
                     return ('object:providedBy-differs', sid, proto, I.__name__), blobs
-    return None, blobs
+    return soft, blobs
 
 
 def dump_all(_):
